@@ -54,7 +54,7 @@ BOUNDS = {
         "C(3,3), C(4,2), T(2,2): every single cell, every pair of cells, every single face, every single node, node set of "
         "every cell; routes 1, 2 (all families) and 3 (cells, faces); C(4,4): every single cell and face, routes 1-3. Scale axis: "
         "C(4,2) *1e-3 and T(2,2) *1e3 (split and single-cell partial). Purity digest of grid / tensors / boundary objects / "
-        "target arrays around every call; reuse (second discretize on the same dictionary, python inverter) in split."
+        "target arrays around every call; 3-d: C(2,2,2) split (python, mixed) and single-cell partial updates; reuse (second discretize on the same dictionary, python inverter) in split."
     ),
     "thorough": (
         "quick + numba inverter for the all-Dirichlet variant + 3-d grids C(2,2,2), Tet(1,1,1), Tet(2,1,1) for split and partial (single cells/faces/nodes, pairs of "
@@ -201,6 +201,11 @@ def cases(tier):
             out.append({"part": "split", "method": m, "grid": gk, "variant": 0, "inv": "python"})
             for mech in (1, 2, 3):
                 out.append({"part": "partial", "method": m, "grid": gk, "family": "cell1", "mech": mech, "inv": "python", "slice": [0, 1]})
+    if tier == "quick":  # 3-d Cartesian letter (4 nodes per face, vector rows with nd = 3); thorough has the full 3-d set
+        for m in METHODS:
+            out.append({"part": "split", "method": m, "grid": "C222", "variant": 0, "inv": "python"})
+            for mech in (1, 2, 3):
+                out.append({"part": "partial", "method": m, "grid": "C222", "family": "cell1", "mech": mech, "inv": "python", "slice": [0, 1]})
     pgrids = ["C33", "C42", "T22"]
     for m in METHODS:
         for gk in pgrids:
